@@ -2,6 +2,8 @@ package main
 
 import (
 	"fmt"
+
+	"golang.org/x/tools/go/ssa"
 	"go/constant"
 	"go/types"
 	"strings"
@@ -32,6 +34,7 @@ type specCtx struct {
 	locals func(name string) (sval, bool) // current values of locals (loop invariants, asserts)
 	pkg    *types.Package                 // for constants / type names
 	blk    int                            // block for guarded side assumptions
+	ssaArgs map[string]ssa.Value
 }
 
 func (c *specCtx) with(names map[string]sval) *specCtx {
@@ -68,6 +71,8 @@ func sortToType(s string) types.Type {
 		return types.Typ[types.Uint8]
 	case "uint64":
 		return types.Typ[types.Uint64]
+	case "bytes":
+		return types.NewSlice(types.Typ[types.Uint8])
 	}
 	return nil
 }
@@ -567,7 +572,7 @@ func (c *specCtx) call(x *ECall) sval {
 		}
 		md, _, ds, _ := fx.mapArrs(mt)
 		h := fx.heapGet(c.cur, md, ds)
-		return sval{term: "(select (select " + h + " " + m.term + ") " + k.term + ")", typ: tBool, sort: "Bool"}
+		return sval{term: "(and (not (= " + m.term + " 0)) (select (select " + h + " " + m.term + ") " + k.term + "))", typ: tBool, sort: "Bool"}
 	case "typeof":
 		v := c.eval(x.Args[0])
 		return sval{term: "(typeof " + v.term + ")", typ: tInt, sort: "Int"}
@@ -599,6 +604,29 @@ func (c *specCtx) call(x *ECall) sval {
 	case "allocated":
 		v := c.eval(x.Args[0])
 		return sval{term: "(<= " + v.term + " " + c.cur.alloc + ")", typ: tBool, sort: "Bool"}
+	case "upd":
+		a := c.eval(x.Args[0])
+		k := c.eval(x.Args[1])
+		v := c.eval(x.Args[2])
+		return sval{term: "(store " + a.term + " " + k.term + " " + v.term + ")", typ: a.typ, sort: a.sort}
+	case "boxed":
+		v := c.eval(x.Args[0])
+		if v.typ == nil {
+			panic(specErr("boxed() of untyped value"))
+		}
+		bx, _ := fx.d.Box(v.typ)
+		return sval{term: "(" + bx + " " + v.term + ")", typ: tIface, sort: "Iface"}
+	case "mapunchanged":
+		m := c.eval(x.Args[0])
+		if c.old == nil {
+			panic(specErr("mapunchanged needs old state"))
+		}
+		mt, ok := m.typ.Underlying().(*types.Map)
+		if !ok {
+			panic(specErr("mapunchanged on non-map"))
+		}
+		md, mv, ds, vs := fx.mapArrs(mt)
+		return sval{term: fmt.Sprintf("(and (= (select %s %s) (select %s %s)) (= (select %s %s) (select %s %s)))", fx.heapGet(c.cur, md, ds), m.term, fx.heapGet(c.old, md, ds), m.term, fx.heapGet(c.cur, mv, vs), m.term, fx.heapGet(c.old, mv, vs), m.term), typ: tBool, sort: "Bool"}
 	case "fill":
 		// fill(arr, lo, hi, v): arr with indices [lo,hi) set to v (ghost arrays indexed by int)
 		a := c.eval(x.Args[0])
